@@ -11,6 +11,7 @@ import SkaModel.DriverHist
 import SkaModel.DriverMap
 import SkaModel.DriverSkf
 import SkaModel.DriverCov
+import SkaModel.DriverLo
 import SkaModel.Spec.BuildTable
 import SkaModel.Impl.Reads
 import SkaModel.Spec.ReadsSpec
@@ -154,6 +155,7 @@ def runCase (c : Case) : String × String :=
         let cols := tb.alignColumns t famb (siteFilterOf ft) mask gaps
         s!"align[names={joinStr names};cols={joinStr (sortStrings (cols.map strOf))}]"
     (m, sp)
+  | "lo_cmd" | "lo_comp" | "lo_snps" | "lo_mid" | "lo_out" | "lo_graph" => runLo c
   | "covll" => runCovll c
   | "covcut" => runCovcut c
   | "covcheck" => runCovcheck c
